@@ -53,6 +53,16 @@ def _cells(ctx, rng, tier):
     for h in az:
         cells.append(h)
         cells += (nb.cache[h] or [])
+    # the cells at the 20 face centres and their neighbours (the projection's radial distance r -> 0 there: special
+    # cases for "at the face centre" must not swallow the vertices of the finest cells)
+    a = ctx.c(["facecenters"], tag="fc")[0].split()
+    ops = [f"ll2c {a[2 + 2 * i]} {a[3 + 2 * i]} {r}" for i in range(20)
+           for r in ((15, 14, 12) if tier == "quick" else range(8, 16))]
+    fcs = [int(x.split()[1], 16) for x in ctx.c(ops, tag="fccells") if ok(x)]
+    nb.fetch(fcs)
+    for h in fcs:
+        cells.append(h)
+        cells += (nb.cache[h] or [])
     for _ in range(200 if tier == "quick" else 3000):
         cells.append(gen.rand_cell(rng))
     return list(dict.fromkeys(cells)), nb
